@@ -1,4 +1,5 @@
 import LunaVerif.Lemmas.C20CycMain
+import LunaVerif.Model.Device.SlotContract
 /-!
 # C20 — the endpoint side of the cycle-level composition: the SLOT CONTRACT
 
@@ -12,61 +13,6 @@ A slot sees: `pul` — a `ready_for_response` pulse addressed to it in this cycl
 endpoint decodes it); `rdy` — `tx.ready` (the data packet generator's `stream.ready`); and drives `Sig`.
 -/
 namespace LunaVerif.C20Ctr
-
-/-- What one endpoint drives, as far as the discipline is concerned. -/
-structure Sig where
-  hs     : Bool := false     -- handshakes_out.ack | nak | stall
-  valid  : Bool := false     -- tx.valid
-  first  : Bool := false
-  last   : Bool := false
-  tstart : Bool := false     -- timer.start
-deriving DecidableEq, Repr
-
-/-- Phase of a slot: nothing owed / a pulse arrived `j` cycles ago and has not been answered / a data packet with
-payload is being streamed to the generator. -/
-inductive Ph
-  | idle
-  | armed (j : Nat)
-  | sending
-deriving DecidableEq, Repr
-
-def silent : Sig := {}
-
-/-- `timer.start` only in the cycle after a reception ended (`a1`/`a2` = `rx_active` one / two cycles ago). -/
-def tOk (a1 a2 : Bool) (d : Sig) : Bool := !d.tstart || (!a1 && a2)
-
-/-- The slot's drive is allowed in this phase:
-* while `sending`: `valid` is held (no underrun), no handshake;
-* otherwise: `first`/`last` only with `valid`; `valid` only as the start of a packet (`first`) or as a zero-length
-  packet (`last` without `first`); a handshake or a packet only in the cycle of a pulse or while an unanswered pulse is
-  at most `L+1` cycles old; never both. -/
-def cokB (ph : Ph) (pul hs valid first last : Bool) : Bool :=
-  if ph = .sending then valid && !hs
-  else
-    (!first || valid) && (!last || valid) && (!valid || first || last)
-      && (!(hs || valid) || (pul || ph != .idle)) && !(hs && valid)
-
-/-- An unanswered pulse expires after `L` further cycles. -/
-def expire (L : Nat) : Ph → Ph
-  | .armed j => if j < L then .armed (j + 1) else .idle
-  | _ => .idle
-
-/-- Next phase: a handshake or a zero-length packet answers the pulse; `valid & first` starts a packet, which ends
-when the word with `last` is taken. -/
-def cnextB (L : Nat) (ph : Ph) (pul rdy hs valid first last : Bool) : Ph :=
-  if ph = .sending then (if rdy && last then .idle else .sending)
-  else if hs then .idle
-  else if valid && first then (if rdy && last then .idle else .sending)
-  else if valid then .idle
-  else if pul then .armed 0
-  else expire L ph
-
-def cok (ph : Ph) (pul : Bool) (d : Sig) : Bool := cokB ph pul d.hs d.valid d.first d.last
-def cnext (L : Nat) (ph : Ph) (pul rdy : Bool) (d : Sig) : Ph := cnextB L ph pul rdy d.hs d.valid d.first d.last
-
-/-- One cycle of the contract: (the slot's drive is allowed, next phase). -/
-def cstep (L : Nat) (ph : Ph) (pul rdy a1 a2 : Bool) (d : Sig) : Bool × Ph :=
-  (cok ph pul d && tOk a1 a2 d, cnext L ph pul rdy d)
 
 /-- A slot that owes nothing and sees no pulse is silent (up to `timer.start`) and stays idle. -/
 theorem idle_silent {L : Nat} {rdy : Bool} {d : Sig} (h : cok .idle false d = true) :
